@@ -28,11 +28,11 @@ def showOptL (e : String) : Option (List Rat) → String
 def natsR (l : List Nat) : String := showNats l
 
 def allNames : List String := [
-  "cross_adjacency", "internal_adjacency", "cross_link_attribute", "internal_link_attribute",
+  "cross_adjacency", "cross_adjacency_sparse", "internal_global_clustering", "internal_adjacency", "cross_link_attribute", "internal_link_attribute",
   "cross_path_lengths", "internal_path_lengths", "number_cross_links", "cross_link_density",
   "number_internal_links", "internal_link_density", "cross_degree", "cross_indegree",
   "cross_outdegree", "cross_strength", "cross_instrength", "cross_outstrength",
-  "internal_degree", "internal_indegree", "internal_outdegree", "internal_strength",
+  "internal_degree", "internal_indegree", "internal_outdegree", "internal_strength", "internal_instrength", "internal_outstrength",
   "total_cross_degree", "cross_degree_density", "cross_transitivity",
   "cross_transitivity_sparse", "cross_local_clustering", "cross_local_clustering_sparse",
   "cross_global_clustering", "cross_global_clustering_sparse", "cross_average_path_length",
@@ -80,7 +80,9 @@ def measureOf (toks : List String) : String :=
     | "internal_indegree" => natsR (crossInDegree A L1 L1)
     | "internal_outdegree" => natsR (crossOutDegree A L1 L1)
     | "internal_strength" => showRats (crossStrength directed LA L1 L1)
-    | "total_cross_degree" => showOpt "nan" (mean (natsToRat (crossDegree directed A L1 L2)))
+    | "internal_instrength" => showRats (crossInStrength LA L1 L1)
+    | "internal_outstrength" => showRats (crossOutStrength LA L1 L1)
+    | "total_cross_degree" => showOpt "nan" (totalCrossDegree directed A L1 L2)
     | "cross_degree_density" => showOptL "nan" (crossDegreeDensity directed A L1 L2)
     | "k_cross_transitivity" => showRat (crossTransitivity A L1 L2)
     | "cross_transitivity" => showRat (crossTransitivity A L1 L2)
@@ -92,19 +94,20 @@ def measureOf (toks : List String) : String :=
     | "cross_local_clustering" => showRats (crossLocalClustering directed A L1 L2)
     | "cross_local_clustering_sparse" => showRats (clcSparse directed A L1 L2)
     | "cross_global_clustering" => showOpt "nan" (crossGlobalClustering directed A L1 L2)
-    | "cross_global_clustering_sparse" => showOpt "nan" (mean (clcSparse directed A L1 L2))
+    | "cross_global_clustering_sparse" => showOpt "nan" (crossGlobalClusteringSparse directed A L1 L2)
     | "cross_average_path_length" => showOpt "nan" (crossAPL D L1 L2)
     | "internal_average_path_length" => showOpt "nan" (internalAPL D L1)
     | "cross_closeness" => showRats (crossCloseness N D L1 L2)
     | "internal_closeness" => showRats (internalCloseness D L1)
-    | "average_cross_closeness" => showOpt "nan" (mean (crossCloseness N D L1 L2))
+    | "average_cross_closeness" => showOpt "nan" (averageCrossCloseness N D L1 L2)
     | "local_efficiency" => showOptL "inf" (localEfficiency D L1 L2)
     | "global_efficiency" =>
-        match localEfficiency D L1 L2 with
-        | none => "inf"
-        | some l => match mean l with
-          | none => "nan"
-          | some m => if m = 0 then "inf" else showRat (1 / m)
+        match globalEfficiency D L1 L2 with
+        | .val r => showRat r
+        | .inf => "inf"
+        | .nan => "nan"
+    | "cross_adjacency_sparse" => showNatMat (blockN A L1 L2)
+    | "internal_global_clustering" => showOpt "nan" (internalGlobalClustering N A L1)
     | "nsi_cross_degree" => showRats (nsiCrossDegree A W L1 L2)
     | "nsi_internal_degree" => showRats (nsiCrossDegree A W L1 L1)
     | "nsi_cross_mean_degree" => showOpt "nan" (nsiCrossMeanDegree A W L1 L2)
